@@ -18,7 +18,8 @@ SPEC_FORMS = ('old', 'forall', 'exists', 'implies', 'ite', 'pow2', 'typeis', 'is
               'str_indexof', 'str_at', 'str_suffixof', 'Eq', 'wsonly', 'lstripped', 'val_eq',
               'U', 'app', 'splice', 'Bst', 'appb', 'Bin', 'appbin', 'is_binstr', 'binval',
               'prefix_same', 'outside_same', 'chars_eq', 'allspaces', 'allchar', 'is_bool', 'oval',
-              'isdigits', 'str2int', 'same_dict', 'dval', 'gh', 'ghat', 'same_ghosts', 'npow2', 'asref', 'allzero_bytes', 'chars', 'entry', 'is_ref', 'refof', 'aslist_vv')
+              'isdigits', 'str2int', 'same_dict', 'dval', 'gh', 'ghat', 'same_ghosts', 'npow2', 'asref', 'allzero_bytes', 'chars', 'entry', 'is_ref', 'refof', 'aslist_vv',
+              'at_exit', 'has_exit', 'is_slice', 'slice_part')
 
 
 def eval_call(eng, e, st, ctx):
@@ -38,6 +39,10 @@ def eval_call(eng, e, st, ctx):
         if name in eng.spec_funcs and ctx.spec:
             for st2, args in eng.ev_list(e.args, st, ctx):
                 yield st2, call_spec_func(eng, ctx, st2, name, args)
+            return
+        if name == 'slice' and len(e.args) == 1 and isinstance(e.args[0], ast.Starred) and not e.keywords:
+            for r in b_slice_starred(eng, e, st, ctx):
+                yield r
             return
         h = BUILTINS.get(name)
         if h is not None:
@@ -289,6 +294,8 @@ def spec_form(eng, e, st, ctx):
         return SV(BOOL, z3.Exists([c], z3.And([rng, bz])))
     if name == 'implies':
         p = eng.truth(st, ev1(a[0]))
+        if z3.is_false(z3.simplify(p)):
+            return SV(BOOL, B(True))          # the consequent may be undefined on this path (e.g. at_exit)
         tmp = st.fork()
         tmp.assume(p)
         n0 = len(tmp.pc)
@@ -469,6 +476,27 @@ def spec_form(eng, e, st, ctx):
         tmp = les.fork()
         n0 = len(tmp.pc)
         sv = eng.spec_eval(a[0], tmp, c2)
+        for f in tmp.pc[n0:]:
+            st.assume(f)
+        return sv
+    if name == 'is_slice':
+        v = eng.coerce(ev1(a[0]), VAL).z
+        return SV(BOOL, z3.And(Val.is_vref(v), Val.rval(v) > 0, eng.typeis(st, Val.rval(v), 'PySlice')))
+    if name == 'slice_part':
+        v = eng.coerce(ev1(a[0]), VAL).z
+        return SV(VAL, z3.Select(st.hget(E.fkey(a[1].value, VAL)), Val.rval(v)))
+    if name == 'has_exit':
+        # has_exit(k): this path left loop k (normally or by break) -- decided per path, not a formula
+        return SV(BOOL, B(('exit%d' % int(a[0].value)) in st.marks))
+    if name == 'at_exit':
+        # at_exit(k, e): e evaluated in the state in which this path left loop k
+        m = st.marks.get('exit%d' % int(a[0].value))
+        if m is None:
+            raise Unsupported('at_exit(%s, ..) on a path that did not leave that loop (guard it with has_exit)' % a[0].value)
+        c2 = eng.spec_ctx(ctx, old_state=ctx.old_state, result=ctx.result, bound=ctx.bound)
+        tmp = m.fork()
+        n0 = len(tmp.pc)
+        sv = eng.spec_eval(a[1], tmp, c2)
         for f in tmp.pc[n0:]:
             st.assume(f)
         return sv
@@ -807,6 +835,19 @@ def b_len(eng, e, st, ctx):
             raise Unsupported('len of %r' % (t,))
 
 
+def int_of_text(eng, ctx, st2, s):
+    ok = E.s_isint(s)
+    # facts about the model (L3): plain decimal literals with optional sign are accepted with their value
+    plain = z3.InRe(s, z3.Concat(z3.Option(z3.Re(S('-'))), z3.Plus(digits_re())))
+    neg = z3.PrefixOf(S('-'), s)
+    val = z3.If(neg, -z3.StrToInt(z3.SubString(s, 1, z3.Length(s) - 1)), z3.StrToInt(s))
+    st2.assume(z3.Implies(plain, z3.And(ok, E.s_toint(s) == val)))
+    st2.assume(z3.Implies(s == S(''), z3.Not(ok)))
+    # anything containing a character that can never occur in an int literal is rejected
+    eng.safe(ctx, st2, ok, 'ValueError', 'int() of non-literal')
+    return SV(INT, E.s_toint(s))
+
+
 def b_int(eng, e, st, ctx):
     for st2, args, _ in _args(eng, e, st, ctx):
         x = args[0]
@@ -817,19 +858,16 @@ def b_int(eng, e, st, ctx):
         elif x.ty == FLOAT:
             yield st2, SV(INT, float_to_int(x.z))
         elif x.ty in (STR, BYTES):
-            s = x.z
-            ok = E.s_isint(s)
-            # facts about the model (L3): plain decimal literals with optional sign are accepted with their value
-            plain = z3.InRe(s, z3.Concat(z3.Option(z3.Re(S('-'))), z3.Plus(digits_re())))
-            neg = z3.PrefixOf(S('-'), s)
-            val = z3.If(neg, -z3.StrToInt(z3.SubString(s, 1, z3.Length(s) - 1)), z3.StrToInt(s))
-            st2.assume(z3.Implies(plain, z3.And(ok, E.s_toint(s) == val)))
-            st2.assume(z3.Implies(s == S(''), z3.Not(ok)))
-            # anything containing a character that can never occur in an int literal is rejected
-            eng.safe(ctx, st2, ok, 'ValueError', 'int() of non-literal')
-            yield st2, SV(INT, E.s_toint(s))
+            yield st2, int_of_text(eng, ctx, st2, x.z)
         elif x.ty == VAL:
             v = x.z
+            s_t = st2.fork()
+            s_t.assume(z3.Or(Val.is_vtxt(v), Val.is_vbyt(v)))
+            if eng.feasible(s_t):
+                yield s_t, int_of_text(eng, ctx, s_t, z3.If(Val.is_vtxt(v), Val.tval(v), Val.bval(v)))
+            st2.assume(z3.Not(z3.Or(Val.is_vtxt(v), Val.is_vbyt(v))))
+            if not eng.feasible(st2):
+                continue
             eng.safe(ctx, st2, z3.Or(Val.is_vint(v), Val.is_vflt(v), Val.is_vbool(v)), 'TypeError', 'int() of non-number')
             yield st2, SV(INT, z3.If(Val.is_vint(v), Val.ival(v),
                                      z3.If(Val.is_vbool(v), z3.If(Val.oval(v), I(1), I(0)), float_to_int(Val.fval(v)))))
@@ -947,6 +985,8 @@ def b_isinstance(eng, e, st, ctx):
         if desc is None:
             raise Unsupported('isinstance on %r' % (x.ty,))
         conds = []
+        if x.ty == VAL and 'slice' in names and 'PySlice' in eng.classes:
+            conds.append(z3.And(Val.is_vref(x.z), eng.typeis(st1, Val.rval(x.z), 'PySlice')))
         for cond, cname in desc:
             for n in names:
                 if n == cname or (n == 'int' and cname == 'bool') or (n == 'Integral' and cname in ('int', 'bool')) \
@@ -1046,6 +1086,7 @@ def b_str(eng, e, st, ctx):
             yield st2, SV(STR, fresh('str', z3.StringSort()))
 
 
+isdigit_f = z3.Function('pyisdigit', z3.StringSort(), z3.BoolSort())
 bindigits_f = z3.Function('bindigits', z3.IntSort(), z3.StringSort())
 strcount_f = z3.Function('strcount', z3.StringSort(), z3.StringSort(), z3.IntSort())
 
@@ -1120,10 +1161,41 @@ def b_slice(eng, e, st, ctx):
             parts.append(SV(VAL, Val.vnone))
         if len(args) == 1:
             parts = [SV(VAL, Val.vnone), parts[0], SV(VAL, Val.vnone)]
-        hook = eng.opts.get('slice_hook')
-        if hook is None:
-            raise Unsupported('slice()')
-        yield st2, hook(eng, ctx, st2, parts)
+        yield st2, new_slice(eng, st2, parts)
+
+
+def new_slice(eng, st, parts):
+    """a Python slice object: a fresh immutable object of model class PySlice with fields start / stop / step"""
+    if 'PySlice' not in eng.classes:
+        raise Unsupported('slice objects (class PySlice not declared)')
+    r = eng.new_ref(st)
+    st.hset(('type',), z3.Store(st.hget(('type',)), r, I(eng.class_id('PySlice'))))
+    for f, v in zip(('start', 'stop', 'step'), parts):
+        k = E.fkey(f, VAL)
+        st.hset(k, z3.Store(st.hget(k), r, eng.coerce(v, VAL).z))
+    return SV(Ref('PySlice'), r)
+
+
+def b_slice_starred(eng, e, st, ctx):
+    """slice(*lst): Python takes 1..3 arguments, anything else is a TypeError"""
+    for st1, lst in eng.ev(e.args[0].value, st, ctx):
+        if not isinstance(lst.ty, ListT):
+            raise Unsupported('slice(*%r)' % (lst.ty,))
+        n = eng.list_len(st1, lst)
+        eng.safe(ctx, st1, z3.And(n >= 1, n <= 3), 'TypeError', 'slice expected 1 to 3 arguments')
+        arr = eng.list_arr(st1, lst)
+        for k in (1, 2, 3):
+            s2 = st1.fork()
+            s2.assume(n == k)
+            if not eng.feasible(s2):
+                continue
+            items = [SV(lst.ty.elem, z3.Select(arr, I(i))) for i in range(k)]
+            parts = [eng.coerce(x, VAL) for x in items]
+            if k == 1:
+                parts = [SV(VAL, Val.vnone), parts[0], SV(VAL, Val.vnone)]
+            while len(parts) < 3:
+                parts.append(SV(VAL, Val.vnone))
+            yield s2, new_slice(eng, s2, parts)
 
 
 def cursor_name(elem):
@@ -1283,6 +1355,15 @@ def split_template(t):
     return out
 
 
+valstr_f = z3.Function('valstr', Val, z3.StringSort())
+
+
+def val_to_str(v):
+    """str() of a dynamically typed value: ints in decimal, text as it is, None as 'None' (other variants uninterpreted)"""
+    return z3.If(Val.is_vint(v), int_to_str(Val.ival(v)),
+                 z3.If(Val.is_vtxt(v), Val.tval(v), z3.If(Val.is_vnone(v), S('None'), valstr_f(v))))
+
+
 def str_format(eng, ctx, st, tmpl, args):
     parts = split_template(tmpl)
     if parts is None:
@@ -1305,6 +1386,10 @@ def str_format(eng, ctx, st, tmpl, args):
                 pieces.append(int_to_str(a.z))
             elif a.ty == BOOL:
                 pieces.append(z3.If(a.z, S('True'), S('False')))
+            elif a.ty == VAL:
+                pieces.append(val_to_str(a.z))
+            elif a.ty == NONE:
+                pieces.append(S('None'))
             else:
                 return None
         elif text in ('{:06d}', '{:05d}'):
@@ -1373,6 +1458,30 @@ def str_method(eng, ctx, st, obj, name, args, kwargs):
             facts.append(z3.Implies(z3.Length(r) == 0, b == S('')))
         st.assume(z3.And(facts))
         yield st, SV(t, r)
+        return
+    if name in ('lstrip', 'rstrip') and len(args) == 1 and args[0].ty == t:
+        cs = z3.simplify(args[0].z)
+        if z3.is_string_value(cs) and len(pystr(cs)) >= 1:
+            chars = pystr(cs)
+            one = z3.Union(*[z3.Re(S(ch)) for ch in chars]) if len(chars) > 1 else z3.Re(S(chars))
+            r = fresh('strip', z3.StringSort())
+            a = fresh('cut', z3.StringSort())
+            if name == 'lstrip':
+                st.assume(z3.And(s == z3.Concat(a, r), z3.InRe(a, z3.Star(one)), z3.Not(z3.InRe(z3.SubString(r, 0, 1), one))))
+            else:
+                st.assume(z3.And(s == z3.Concat(r, a), z3.InRe(a, z3.Star(one)),
+                                 z3.Not(z3.InRe(z3.SubString(r, z3.Length(r) - 1, 1), one))))
+            yield st, SV(t, r)
+            return
+    if name == 'isdigit' and not args:
+        # ASCII digits only are known to be digits; for anything else the answer is left open, except that
+        # the empty string and strings containing an ASCII non-digit are not (L5)
+        d = isdigit_f(s)
+        asc = z3.Range(S(chr(0)), S(chr(127)))
+        st.assume(z3.Implies(z3.InRe(s, z3.Plus(digits_re())), d))
+        st.assume(z3.Implies(z3.And(d, z3.InRe(s, z3.Star(asc))), z3.InRe(s, z3.Plus(digits_re()))))
+        st.assume(z3.Implies(s == S(''), z3.Not(d)))
+        yield st, SV(BOOL, d)
         return
     if name == 'startswith':
         p = args[0]
